@@ -854,7 +854,10 @@ func runProxy(sc proxyScenario) (problems []string, skipped string) {
 		buf := make([]byte, len(hello))
 		c.SetReadDeadline(time.Now().Add(10 * time.Second))
 		if _, err := io.ReadFull(c, buf); err != nil {
-			return nil, "front echo: " + err.Error()
+			// this connection is not being served (that is another property's business); the teardown of
+			// what has been set up so far is still checked
+			c.SetReadDeadline(time.Time{})
+			break
 		}
 		c.SetReadDeadline(time.Time{})
 	}
@@ -1031,6 +1034,11 @@ func main() {
 		}
 		for _, fault := range []string{"sever", "kick", "endpoint-close", "cancel", "kick-hung", "sever-backlog", "epfault-text", "epfault-short", "epfault-cut", "epfault-silent", "kick-hung-hinted"} {
 			ops = append(ops, proxyScenario{fault, 2, "legacy"}.canon())
+		}
+		// many idle multiplexed connections (each keeps a read outstanding at the endpoint) when the tunnel goes
+		ops = append(ops, proxyScenario{"sever", 130, "legacy"}.canon())
+		if f.Thorough() {
+			ops = append(ops, proxyScenario{"endpoint-close", 300, "legacy"}.canon(), proxyScenario{"kick", 130, "legacy"}.canon())
 		}
 		for i := 0; i < np; i++ {
 			ops = append(ops, proxyScenario{hx.Pick(r, []string{"sever", "kick", "endpoint-close", "cancel", "kick-hung", "sever-backlog", "epfault-text", "epfault-short", "epfault-cut", "epfault-silent", "kick-hung-hinted"}), r.Intn(4), hx.Pick(r, []string{"legacy", "legacy", "siding"})}.canon())
